@@ -152,14 +152,23 @@ func (_this *Reader) ReadDecimalFloat() (compact_float.DFloat, *apd.Decimal) {
 	return value, bigValue
 }
 
+func (_this *Reader) validateTime(value compact_time.Time) {
+	if value.IsZeroValue() {
+		// All reserved bits cleared: not a time that any encoder writes
+		// (zero values are encoded as null).
+		_this.errorf("invalid zero-value time encoding")
+	}
+	if err := value.Validate(); err != nil {
+		_this.errorf("%v", err)
+	}
+}
+
 func (_this *Reader) ReadDate() compact_time.Time {
 	value, _, err := compact_time.DecodeDateWithBuffer(_this.reader, _this.buffer)
 	if err != nil {
 		_this.unexpectedError(err)
 	}
-	if err := value.Validate(); err != nil {
-		_this.errorf("%v", err)
-	}
+	_this.validateTime(value)
 
 	return value
 }
@@ -169,9 +178,7 @@ func (_this *Reader) ReadTime() compact_time.Time {
 	if err != nil {
 		_this.unexpectedError(err)
 	}
-	if err := value.Validate(); err != nil {
-		_this.errorf("%v", err)
-	}
+	_this.validateTime(value)
 
 	return value
 }
@@ -181,9 +188,7 @@ func (_this *Reader) ReadTimestamp() compact_time.Time {
 	if err != nil {
 		_this.unexpectedError(err)
 	}
-	if err := value.Validate(); err != nil {
-		_this.errorf("%v", err)
-	}
+	_this.validateTime(value)
 
 	return value
 }
